@@ -130,6 +130,11 @@ def rewrite(kernel):
     ast.fix_missing_locations(tree)
     ns = dict(py.__globals__)
     ns["prange"] = range
+    # np.empty / np.empty_like hand out uninitialised memory: the adversarial environment answer is a finite
+    # poison value (never NaN, never 0), so that an element the kernel forgets to initialise is visible
+    for k, v in list(ns.items()):
+        if v is np:
+            ns[k] = _PoisonedNumpy()
     # numba's thread queries are answered by the virtual scheduler
     for fname in ("get_num_threads", "get_thread_id"):
         if fname in ns:
@@ -137,6 +142,39 @@ def rewrite(kernel):
     exec(compile(tree, f"<rewritten {py.__name__}>", "exec"), ns)
     info = {"parallel": parallel, "regions": regions, "name": py.__name__, "args": argnames}
     return ns["__kernel"], info
+
+
+POISON = -7.25e77
+
+
+class _PoisonedNumpy:
+    def __getattr__(self, name):
+        return getattr(np, name)
+
+    @staticmethod
+    def empty(shape, dtype=np.float64, **kw):
+        a = np.empty(shape, dtype=dtype)
+        a[...] = POISON if np.issubdtype(a.dtype, np.floating) else 123456789
+        return a
+
+    @staticmethod
+    def empty_like(x, dtype=None, **kw):
+        return _PoisonedNumpy.empty(np.shape(x), dtype=dtype or np.asarray(x).dtype)
+
+
+def static_chunks(iters, T):
+    """numba's static schedule: contiguous chunks, one per thread (empty chunks dropped)"""
+    iters = list(iters)
+    T = max(1, int(T))
+    n = len(iters)
+    size, extra = divmod(n, T)
+    out, k = [], 0
+    for t in range(T):
+        m = size + (1 if t < extra else 0)
+        if m:
+            out.append(iters[k:k + m])
+        k += m
+    return out
 
 
 # ------------------------------------------------------------------ proxies and scheduler
@@ -183,21 +221,46 @@ class HarnessError(Exception):
     pass
 
 
+class _NoSem:
+    def acquire(self):
+        pass
+
+    def release(self):
+        pass
+
+
 class Scheduler:
     """mode 'seq': iterations in order in the calling thread, recording access sets per iteration.
     mode 'threads': `partition` (list of iteration lists) on virtual threads following `prefix`."""
 
-    def __init__(self, mode, partition=None, prefix=(), parallel=True):
+    def __init__(self, mode, partition=None, prefix=(), parallel=True, nthreads=1):
         self.mode = mode
         self.partition = partition
+        self.nthreads = nthreads
+        self.region_iterations = {}
         self.prefix = list(prefix)
         self.parallel = parallel
-        self.access = {}  # iteration -> list of (array, kind, elements)
+        self.access = {}  # (region, iteration) -> list of (array, kind, elements)
         self.cur_iter = None
         self.trace = []  # list of (enabled tuple, chosen, prev_running)
         self.points = 0
         self._tl = threading.local()
         self.errors = []
+
+    @property
+    def main_region(self):
+        """the parallel region with the most iterations (ties: the last one)"""
+        if not self.region_iterations:
+            return None
+        return max(sorted(self.region_iterations), key=lambda r: (len(self.region_iterations[r]), r))
+
+    @property
+    def iterations(self):
+        r = self.main_region
+        return [] if r is None else self.region_iterations[r]
+
+    def accesses_of(self, region, i):
+        return self.access.get((region, i), [])
 
     # -- array wrapping
     def wrap(self, obj, name, written):
@@ -224,20 +287,27 @@ class Scheduler:
         self.state[tid] = "running"
 
     # -- the loop
+    def partition_of(self, region, iters):
+        """The explored partition applies to the region whose iteration set it covers; every other parallel
+        region of the kernel gets numba's static schedule for the virtual thread count."""
+        part = self.partition
+        if part is not None and sorted(x for p in part for x in p) == list(iters):
+            return [list(p) for p in part if p]
+        return static_chunks(iters, self.nthreads)
+
     def parallel_for(self, body, region, *range_args):
         iters = list(range(*[int(a) for a in range_args]))
-        self.iterations = iters
+        self.region_iterations[region] = iters
         if self.mode == "seq" or not self.parallel:
             for i in iters:
-                self.cur_iter = i
+                self.cur_iter = (region, i)
                 body(i)
             self.cur_iter = None
-            self.n_iterations = len(iters)
             return
-        part = self.partition
-        if sorted(x for p in part for x in p) != iters:
-            raise HarnessError(f"partition {part} does not cover iterations {iters}")
+        part = self.partition_of(region, iters)
         T = len(part)
+        if T == 0:
+            return
         self.sems = [threading.Semaphore(0) for _ in range(T)]
         self.ctrl = threading.Semaphore(0)
         self.state = ["new"] * T
@@ -257,6 +327,14 @@ class Scheduler:
                 self.state[tid] = "done"
                 self.ctrl.release()
 
+        if T == 1:
+            # a single thread: no choice points; run inline (loads/stores still go through the proxies)
+            self._tl.tid = 0
+            self.sems, self.ctrl, self.state = [_NoSem()], _NoSem(), ["running"]
+            VIRTUAL["get_thread_id"] = 0
+            for i in part[0]:
+                body(i)
+            return
         threads = [threading.Thread(target=runner, args=(t,), daemon=True) for t in range(T)]
         for t in threads:
             t.start()
@@ -298,7 +376,7 @@ class Scheduler:
 
 def run_sequential(fn, info, args, nthreads=1):
     """One thread executes every iteration in order; numba.get_num_threads() answers `nthreads`."""
-    s = Scheduler("seq", parallel=info["parallel"])
+    s = Scheduler("seq", parallel=info["parallel"], nthreads=nthreads)
     VIRTUAL["get_num_threads"], VIRTUAL["get_thread_id"] = nthreads, 0
     try:
         res = fn(s, *[np.array(a, copy=True) if isinstance(a, np.ndarray) else a for a in args])
@@ -307,10 +385,15 @@ def run_sequential(fn, info, args, nthreads=1):
     return res, s
 
 
-def conflicts(s):
-    """element-level conflicts between different iterations: list of (array, i, j, kind)"""
+def conflicts(s, region="main"):
+    """element-level conflicts between different iterations of one parallel region (regions are separated by a
+    barrier): list of (array, element, kind, iterations). region="main": the region with the most iterations."""
+    if region == "main":
+        region = s.main_region
     writes, reads = {}, {}
-    for it, acc in s.access.items():
+    for (reg, it), acc in s.access.items():
+        if reg != region:
+            continue
         for name, kind, el in acc:
             d = writes if kind == "w" else reads
             for e in el.tolist():
@@ -327,9 +410,25 @@ def conflicts(s):
     return out
 
 
+def cross_conflicts(s, partition, nthreads):
+    """conflicts between iterations that run on different virtual threads, over every parallel region of the
+    kernel: the explored partition for the region it covers, the static schedule for the others.
+    -> list of (region, array, element, kind, iterations)"""
+    probe = Scheduler("threads", partition=partition, nthreads=nthreads)
+    out = []
+    for region, iters in s.region_iterations.items():
+        part = probe.partition_of(region, iters)
+        owner = {i: k for k, blk in enumerate(part) for i in blk}
+        for cf in conflicts(s, region):
+            if len({owner[i] for i in cf[3]}) > 1:
+                out.append((region,) + cf)
+    return out
+
+
 def run_threads(fn, info, args, partition, prefix, nthreads=None):
-    s = Scheduler("threads", partition=partition, prefix=prefix, parallel=info["parallel"])
-    VIRTUAL["get_num_threads"], VIRTUAL["get_thread_id"] = (nthreads or max(1, len(partition))), 0
+    T = nthreads or max(1, len(partition or [1]))
+    s = Scheduler("threads", partition=partition, prefix=prefix, parallel=info["parallel"], nthreads=T)
+    VIRTUAL["get_num_threads"], VIRTUAL["get_thread_id"] = T, 0
     try:
         res = fn(s, *[np.array(a, copy=True) if isinstance(a, np.ndarray) else a for a in args])
     finally:
@@ -405,3 +504,61 @@ def _digest(res):
     for r in (res if isinstance(res, tuple) else (res,)):
         h.update(np.ascontiguousarray(r).tobytes())
     return h.hexdigest()[:16]
+
+
+# ------------------------------------------------------------------ API-level runs on virtual threads
+
+_VIRT_CACHE = {}
+
+
+def _virtual_kernel(disp, T, stats):
+    key = id(disp)
+    if key not in _VIRT_CACHE:
+        try:
+            _VIRT_CACHE[key] = (disp, rewrite(disp), inspect.signature(disp.py_func))
+        except Unsupported as e:
+            _VIRT_CACHE[key] = (disp, None, str(e))
+    _, rw, sig = _VIRT_CACHE[key]
+    if rw is None:
+        stats["not_virtualized"] = stats.get("not_virtualized", 0) + 1
+        return None
+    fn, info = rw
+
+    def call(*a, **kw):
+        b = sig.bind(*a, **kw)
+        b.apply_defaults()
+        args = [b.arguments[n] for n in info["args"]]
+        stats["kernel_calls"] = stats.get("kernel_calls", 0) + 1
+        res, _ = run_threads(fn, info, args, None, [], nthreads=T)
+        return res
+
+    call.py_func = disp.py_func
+    return call
+
+
+class virtual_threads:
+    """Context manager: every numba `parallel=True` kernel referenced from the given modules is replaced by its
+    thread bodies (derived from its current source by `rewrite`) run on T virtual threads with numba's static
+    work split and the default (non-preemptive) schedule; numba.get_num_threads() answers T and np.empty hands out
+    poisoned memory. The public API above the kernels is the real code. Deterministic."""
+
+    def __init__(self, modules, T):
+        self.modules, self.T, self.saved, self.stats = list(modules), int(T), [], {}
+
+    def __enter__(self):
+        for m in self.modules:
+            for name, val in list(vars(m).items()):
+                opts = getattr(val, "targetoptions", None)
+                if hasattr(val, "py_func") and isinstance(opts, dict) and opts.get("parallel"):
+                    v = _virtual_kernel(val, self.T, self.stats)
+                    if v is not None:
+                        self.saved.append((m, name, val))
+                        setattr(m, name, v)
+        self.stats["kernels_virtualized"] = len({id(v) for _, _, v in self.saved})
+        return self
+
+    def __exit__(self, *a):
+        for m, name, val in self.saved:
+            setattr(m, name, val)
+        self.saved = []
+        return False
